@@ -172,6 +172,61 @@ func directedPauseFlush() input {
 		}}
 }
 
+// sweepWindow is the number of cycles after the first request during which the agent can
+// still hold work for it (request latency + lower-module delay + response staging), with margin.
+var sweepWindow = map[string]int{"idealmemcontroller": 16, "dram": 64, "simplebankedmemory": 20, "writeback": 36,
+	"writethroughcache": 36, "tlb": 28, "mmuCache": 28, "mmu": 16, "gmmu": 28, "addresstranslator": 30, "rob": 24, "datamover": 40}
+
+// sweep issues one control verb at EVERY tick offset of the lifetime of a small burst of
+// requests (two of them coalescing on one line/page, one elsewhere), so that the verb is
+// handled in every internal phase of the agent: request queued, in the pipeline, outstanding
+// at the lower module, lower response delivered but not yet consumed, response staged but
+// not yet sent, response leaving.  The agent is then enabled again and must serve new traffic.
+func sweep(r *hx.Rand, agent string, cmd int, delay int, cfg map[string]int, buf int) []json.RawMessage {
+	var out []json.RawMessage
+	for at := 1; at <= sweepWindow[agent]+delay; at++ {
+		in := input{Agent: agent, Buf: buf, Delays: []int{delay}, Cfg: cfg}
+		in.Ops = []opIn{
+			{At: 0, Addr: 0x1000, PID: 0},
+			{At: 1, Addr: 0x1004, PID: 0},
+			{At: 2, Addr: 0x3040, PID: 1, Write: true},
+			{At: uint64(at), Ctl: true, Cmd: cmd},
+			{At: uint64(at + 70 + delay), Ctl: true, Cmd: 2, Wait: true},
+			{At: uint64(at + 72 + delay), Addr: 0x1000, PID: 0},
+			{At: uint64(at + 73 + delay), Addr: 0x2008, PID: 1},
+		}
+		out = append(out, hx.J(in))
+	}
+	return out
+}
+
+func sweeps(r *hx.Rand, tier string) []json.RawMessage {
+	var out []json.RawMessage
+	for _, a := range Agents {
+		rr := r.Fork()
+		cfg := map[string]int{"latency": 1 + rr.Intn(3), "width": 1 + rr.Intn(2)}
+		delay := []int{2, 3, 5, 8}[rr.Intn(4)]
+		buf := 2 + rr.Intn(3)
+		// Reset: the clause "no later responses to pre-reset requests" at every offset
+		out = append(out, sweep(rr, a, 3, delay, cfg, buf)...)
+		if tier == "thorough" {
+			for _, c := range []int{0, 1} { // Pause, Drain
+				out = append(out, sweep(rr, a, c, delay, cfg, buf)...)
+			}
+			out = append(out, sweep(rr, a, 3, []int{1, 12, 30}[rr.Intn(3)], randCfg(rr, a), 1)...)
+		} else {
+			// a thinner Pause / Drain sweep in the quick tier (every third offset, random phase)
+			for _, c := range []int{0, 1} {
+				all := sweep(rr, a, c, delay, cfg, buf)
+				for i := rr.Intn(3); i < len(all); i += 3 {
+					out = append(out, all[i])
+				}
+			}
+		}
+	}
+	return out
+}
+
 func gen(r *hx.Rand, tier string) []json.RawMessage {
 	per := 9
 	if tier == "thorough" {
@@ -202,6 +257,7 @@ func gen(r *hx.Rand, tier string) []json.RawMessage {
 		in.Ops = g.ops
 		out = append(out, hx.J(in))
 	}
+	out = append(out, sweeps(r.Fork(), tier)...)
 	// exact tick-level tie of the ideal controller's control path
 	for i := 0; i < 2*per; i++ {
 		rr := r.Fork()
@@ -254,7 +310,9 @@ func init() {
 			"reset under traffic from any state, invalidate/flush while running and unknown verbs, 2-5 back-to-back verbs without waiting for acknowledgements, " +
 			"idempotent repeats}, each phase surrounded by bursts of reads/writes/translations/moves over a few colliding lines/pages; the requester waits for " +
 			"acknowledgements in 2/3 of the phases; lower-module responses are delayed by a random cyclic pattern of 1..70 cycles; port buffers 1-6; random " +
-			"latencies/widths/MSHR/geometry. The confirmed write-back Pause->Flush history is always included. Non-trivial: >=3 control responses, >=3 data " +
+			"latencies/widths/MSHR/geometry. Offset sweeps for every agent: a burst of three requests (two coalescing) and ONE verb issued at every cycle " +
+			"of the burst's lifetime (Reset at every offset; Pause and Drain at every third offset in the quick tier, every offset in the thorough tier), then Enable and new traffic - " +
+			"so each verb is handled in every internal phase (queued / in pipeline / outstanding below / lower response delivered / response staged / leaving). The confirmed write-back Pause->Flush history is always included. Non-trivial: >=3 control responses, >=3 data " +
 			"requests delivered and >=2 data responses. Plus exact tick-level cases of the ideal memory controller (same scripts, Control buffers of 1-3): " +
 			"every tick's inputs and outputs are compared with Ideal.ideal_tick.",
 		Gen: gen, Run: run, Shrink: shrink,
